@@ -1,4 +1,4 @@
 //! Generated corpus of decorated functions (see /verif/tools/gen_corpus.py).
 pub mod gen;
 pub use gen::FUNCS;
-pub use gen::{ExtraDesc, EXTRAS};
+pub use gen::{big_footprint, ExtraDesc, BIGM_BOUND, EXTRAS};
